@@ -182,7 +182,9 @@ Inductive cop :=
 | CPushAll (sched : list nat) (d : list byte)   (* array_push-like loop with growth schedule *)
 | CTermAll (sched : list nat)
 | CMsg
-| CPy (m frame : list byte).   (* a frame produced by mpt.py:encode_cobs for m *)
+| CPy (m frame : list byte)    (* a frame produced by mpt.py:encode_cobs for m *)
+| CAPush (d : list byte)       (* mpt_array_push(arr, len, data); len = 0 terminates *)
+| CATerm.                      (* mpt_array_push(arr, 0, 0) *)
 
 Record cstate := mkc { cst : estate; cbuf : list byte; ccap : nat }.
 
@@ -210,3 +212,50 @@ Fixpoint push_loop (fuel : nat) (v : variant) (st : estate) (buf : list byte) (c
       end
     end
   end.
+
+(* ---------- mpt_array_push (mptcore/array/array_push.c) with an encoder ---------- *)
+(* the encode_array owns a private raw buffer; [buf] = its used bytes = the encoder window
+   (used = done + scratch), [cap] = its size, 0 = no buffer yet.
+   _mpt_buffer_alloc rounds sizes: 128-byte pages minus the 64-byte header. *)
+Definition abuf_size (len : nat) : nat := ((len + 64 - 1) / 128 + 1) * 128 - 64.
+(* detach of a private buffer: kept if large enough, else moved to a new block *)
+Definition abuf_detach (cap len : nat) : nat := if len <=? cap then cap else abuf_size len.
+
+Definition encfn := estate -> list byte -> nat -> option (list byte) -> eres * estate * list byte.
+
+Fixpoint apush_loop (fuel : nat) (enc : encfn) (st : estate) (buf : list byte) (cap : nat)
+         (d : option (list byte)) (off : nat) : eres * estate * list byte * nat :=
+  match fuel with
+  | 0 => (EFault, st, buf, cap)
+  | S fuel =>
+    let arg := match d with Some l => Some (skipn off l) | None => None end in
+    let '(r, st', buf') := enc st buf cap arg in
+    if cap <? edone st' + escr st' then (EErr BadEncoding, mke 0 0 0, buf', cap)   (* "invalid encoder data size" *)
+    else
+    match r with
+    | EErr MissingBuffer => apush_loop fuel enc st' buf' (abuf_detach cap (cap + 64)) d off
+    | EErr e => (if off =? 0 then EErr e else EInt off, st', buf', cap)
+    | EFault => (EFault, st', buf', cap)
+    | EInt k =>
+      match d with
+      | None => (EInt (off + k), st', buf', cap)
+      | Some l =>
+        let len := length l - off in
+        if len <? k then (EErr BadEncoding, mke 0 0 0, buf', cap)    (* "bad encoder return size" *)
+        else if len - k =? 0 then (EInt (off + k), st', buf', cap)
+        else apush_loop fuel enc st' buf' cap d (off + k)
+      end
+    end
+  end.
+
+(* [d] = Some data | None (len = 0: terminate) *)
+Definition apush (enc : encfn) (st : estate) (buf : list byte) (cap : nat) (d : option (list byte))
+  : eres * estate * list byte * nat :=
+  let d := match d with Some [] => None | x => x end in
+  let len := match d with Some l => length l | None => 0 end in
+  let max := edone st + escr st in
+  let add := Nat.max len 64 in
+  if (cap =? 0) && negb (max =? 0) then (EErr BadArgument, st, buf, cap) else
+  let cap1 := if cap =? 0 then abuf_size add else abuf_detach cap (max + add) in
+  if length buf <? max then (EErr BadArgument, st, buf, cap1) else
+  apush_loop (4 * len + 64) enc st buf cap1 d 0.
